@@ -1,6 +1,7 @@
 """C16 — pretty-printer layout contract."""
 from props import common
 
+from props import plans
 from props.plans import ALL_MODULES as MODULES
 
 LAYOUT = ("__init__", "whitespace", "add_start_line", "add_end_line", "__format_line", "compute_aligned_max_indent",
@@ -35,6 +36,7 @@ CANARIES = [
 def run(tier, seed, only=None):
     return common.standard_run(
         "C16", tier, seed, "proof", MODULES, pred, canaries=CANARIES, only=only,
+        b_checks=[plans.seam("b_layout")],
         explanation=("every line-producing function of pprint.py verified against the statement's layout clauses for "
                      "symbolic indent/level/spacer/newline/flags; unbounded dictionaries and lists by loop contracts "
                      "(arbitrary-iteration rule); nested objects by _format's own contract at level+1"),
